@@ -72,6 +72,57 @@ theorem vector_slot_plain (v : BitVec 32) (h1 : BitVec.ule 1#32 v = true) (h2 : 
   unfold Spec.plain Spec.accessible Spec.isDdr Spec.isDr
   omega
 
+/-- **the write call (ER0 = 104)**: with the argument block (fd, buffer, length) readable at ER1 and the `length`
+    bytes at `buffer` forming the UTF-8 text `str`, the call emits exactly `str` once — one console output, one
+    `stdout:` message — and changes nothing else (registers, CCR, PC, memory).  Any length, any text. -/
+theorem write_call (st : Cpu) (a0 buf len : BitVec 32) (bytes : List (BitVec 8)) (str : String)
+    (hid : getEr st.regs 0 = 104)
+    (hA0 : readAbs24L (getEr st.regs 1) st = .ok a0 st)
+    (hA1 : readAbs24L (getEr st.regs 1 + 4) st = .ok buf st)
+    (hA2 : readAbs24L (getEr st.regs 1 + 8) st = .ok len st)
+    (hlen : bytes.length = len.toNat)
+    (hread : ∀ k (hk : k < len.toNat), st.bus.read (buf + BitVec.ofNat 32 k) = .ok (bytes[k]'(hlen ▸ hk)))
+    (hutf : String.fromUTF8? (ByteArray.mk (bytes.map (fun b => b.toNat.toUInt8)).toArray) = some str) :
+    trapaEmulateMes2 st =
+      .ok () { st with out := str :: st.out, bus := { st.bus with msgs := ("stdout:" ++ str) :: st.bus.msgs } } := by
+  have hr0 : readRnL 0 st = .ok (getEr st.regs 0) st := readRnL_ok 0 st (by decide)
+  have hr1 : readRnL 1 st = .ok (getEr st.regs 1) st := readRnL_ok 1 st (by decide)
+  have hne : ((104 : BitVec 32) == 113) = false := by decide
+  have hrb := readBytes_spec len.toNat buf [] st bytes hlen hread
+  simp only [List.reverse_nil, List.nil_append] at hrb
+  simp only [trapaEmulateMes2, bind_ok, hr0, hid, hne, Bool.false_eq_true, if_false, beq_self_eq_true, if_true, hr1, hA0, hA1,
+    hA2, hrb, hutf, modify_ok]
+
+/-- **set_handler (ER0 = 113) for a vector in 1–63**: the call is exactly two long stores — `address + H'5A000000` into
+    the vector slot 4·vector and ER5 into the handler-context slot H'FFFD10 + 4·vector — nothing else; with
+    `handler_word_low24` an interrupt of that vector later loads the low 24 bits of `address` into PC. -/
+theorem set_handler_call (st : Cpu) (vec addr : BitVec 32)
+    (hid : getEr st.regs 0 = 113)
+    (hA0 : readAbs24L (getEr st.regs 1) st = .ok vec st)
+    (hA1 : readAbs24L (getEr st.regs 1 + 4) st = .ok addr st)
+    (h1 : BitVec.ult vec 1 = false) (h2 : BitVec.ule 64 vec = false) :
+    trapaEmulateMes2 st =
+      (do writeAbs24L (vec * 4) (addr + 0x5a000000)
+          let s ← M.get
+          writeAbs24L (0xfffd10 + vec * 4) (getEr s.regs 5)) st := by
+  have hr0 : readRnL 0 st = .ok (getEr st.regs 0) st := readRnL_ok 0 st (by decide)
+  have hr1 : readRnL 1 st = .ok (getEr st.regs 1) st := readRnL_ok 1 st (by decide)
+  simp only [trapaEmulateMes2, bind_ok, hr0, hid, beq_self_eq_true, if_true, hr1, hA0, hA1, h1, h2, Bool.false_eq_true,
+    or_self, if_false]
+
+/-- … and for a vector outside 1–63 it does nothing at all -/
+theorem set_handler_out_of_range (st : Cpu) (vec addr : BitVec 32)
+    (hid : getEr st.regs 0 = 113)
+    (hA0 : readAbs24L (getEr st.regs 1) st = .ok vec st)
+    (hA1 : readAbs24L (getEr st.regs 1 + 4) st = .ok addr st)
+    (h : BitVec.ult vec 1 = true ∨ BitVec.ule 64 vec = true) :
+    trapaEmulateMes2 st = .ok () st := by
+  have hr0 : readRnL 0 st = .ok (getEr st.regs 0) st := readRnL_ok 0 st (by decide)
+  have hr1 : readRnL 1 st = .ok (getEr st.regs 1) st := readRnL_ok 1 st (by decide)
+  simp only [trapaEmulateMes2, bind_ok, hr0, hid, beq_self_eq_true, if_true, hr1, hA0, hA1]
+  rw [if_pos h]
+  rfl
+
 -- non-vacuity: call number 1 is neither write nor set_handler
 example : getEr (1 : Regs) 0 ≠ 104 ∧ getEr (1 : Regs) 0 ≠ 113 := by decide
 
